@@ -275,13 +275,14 @@ pub fn feedback_scn(terminal: bool, q: Option<u32>, t: Option<u32>) -> Scn {
 
 pub fn scenarios() -> Vec<Scn> {
   use Emit::*;
-  let scripts: Vec<Vec<Emit<i64>>> = vec![vec![C], vec![N(1), C], vec![N(1), N(2), C], vec![N(1), E(7)], vec![N(1), N(2)]];
+  let scripts: Vec<Vec<Emit<i64>>> = vec![vec![C], vec![N(1), C], vec![N(1), N(2), C], vec![N(1), E(7)], vec![N(1), N(2)], vec![E(7)]];
   let mut v = vec![];
   for p in [Pipe::ObserveOn, Pipe::MapObserveOn, Pipe::ObserveOnMap, Pipe::ObserveOnTake1, Pipe::ObserveOnTwice, Pipe::SubscribeOn, Pipe::SubscribeOnMap, Pipe::SubscribeOnTake1, Pipe::SubscribeOnObserveOn] {
     for (si, sc) in scripts.iter().enumerate() {
       for threaded in [false, true] {
         for unsub in [false, true] {
-          let core = matches!(p, Pipe::ObserveOn | Pipe::SubscribeOn) && (si == 2 || si == 3);
+          // (a terminal with no item before it: scripts 0 and 5)
+          let core = matches!(p, Pipe::ObserveOn | Pipe::SubscribeOn) && (si == 2 || si == 3) || matches!(p, Pipe::ObserveOn | Pipe::MapObserveOn | Pipe::ObserveOnTwice) && (si == 0 || si == 5) && !unsub;
           let second = matches!(p, Pipe::ObserveOnTake1 | Pipe::ObserveOnTwice | Pipe::SubscribeOnObserveOn | Pipe::ObserveOnMap) && si == 2 && !threaded;
           let heavy = matches!(p, Pipe::ObserveOnTwice | Pipe::SubscribeOnObserveOn);
           let q = if core { Some(2) } else if second { Some(if heavy { 1 } else { 2 }) } else { None };
